@@ -288,7 +288,7 @@ func bBind(intp *Interpreter) error {
 	if !ok {
 		return intp.e(eTypecheck, "bind: needs a procedure, not %T", obj)
 	}
-	return intp.bindProc(obj, 0)
+	return intp.bindProc(obj, 0, make(map[procID]bool))
 }
 
 func bCleartomark(intp *Interpreter) error {
@@ -1409,10 +1409,26 @@ func equal(a, b Object) (bool, error) {
 	return false, nil
 }
 
-func (intp *Interpreter) bindProc(proc Procedure, depth int) error {
+// procID identifies a procedure object (its storage and length).
+type procID struct {
+	first *Object
+	n     int
+}
+
+func (intp *Interpreter) bindProc(proc Procedure, depth int, seen map[procID]bool) error {
 	if depth > maxProcNesting {
 		return intp.e(eLimitcheck, "bind: procedures nested too deeply")
 	}
+	if len(proc) == 0 {
+		return nil
+	}
+	// Visit every procedure only once, so that the work is linear in the
+	// size of the structure even when procedures are shared or self-referential.
+	id := procID{&proc[0], len(proc)}
+	if seen[id] {
+		return nil
+	}
+	seen[id] = true
 	for i, elem := range proc {
 		switch obj := elem.(type) {
 		case Operator:
@@ -1427,7 +1443,7 @@ func (intp *Interpreter) bindProc(proc Procedure, depth int) error {
 		case Procedure:
 			// be careful to avoid infinite loops
 			proc[i] = nil
-			err := intp.bindProc(obj, depth+1)
+			err := intp.bindProc(obj, depth+1, seen)
 			proc[i] = obj
 			if err != nil {
 				return err
